@@ -37,6 +37,9 @@ def make_filter(spec):
     if "ge" in spec:
         low = spec["ge"]
         return lambda item: item >= low
+    if "type" in spec:
+        name = spec["type"]
+        return lambda item: type(item).__name__ == name
     raise ValueError(spec)
 
 
